@@ -41,6 +41,26 @@ def norm_stmt(node) -> str:
     return " ".join(txt.split())[:200]
 
 
+class _Canon(ast.NodeTransformer):
+    def __init__(self):
+        self.names: dict = {}
+
+    def visit_Name(self, node: ast.Name):
+        if node.id not in self.names:
+            self.names[node.id] = f"v{len(self.names)}"
+        return ast.copy_location(ast.Name(id=self.names[node.id], ctx=node.ctx), node)
+
+
+def canon_stmt(text: str) -> str:
+    """Rename-robust form of a normalised statement: local names become v0, v1, ... in
+    order of appearance (attribute names are kept)."""
+    try:
+        tree = ast.parse(text)
+    except SyntaxError:
+        return " ".join(text.split())
+    return " ".join(ast.unparse(_Canon().visit(tree)).split())
+
+
 @dataclass
 class Instance:
     rule: str
@@ -133,20 +153,25 @@ def load_known_findings() -> list:
     return data.get("findings", []) if isinstance(data, dict) else data
 
 
-def finish(rep: Report, project, controls: list, error: str | None = None) -> int:
-    """Print verdict lines, write evidence + replay files, return the exit code."""
-    prop = rep.prop
-    known = [k for k in load_known_findings() if k.get("property") == prop and k.get("status") == "known"]
-    viol = [i for i in rep.instances if i.verdict == VIOLATION]
-    unrec = [i for i in rep.instances if i.verdict == UNRECOGNISED]
+def split_known(rep: Report) -> tuple:
+    """-> (listed [(instance, finding)], unlisted [(instance, None)])"""
+    known = [k for k in load_known_findings() if k.get("property") == rep.prop and k.get("status") == "known"]
     listed, unlisted = [], []
-    for v in viol:
+    for v in [i for i in rep.instances if i.verdict == VIOLATION]:
         match = None
         for k in known:
-            if k.get("rule") == v.rule and k.get("function") == v.function and norm_stmt(k.get("stmt", "")) == v.stmt:
+            if k.get("rule") == v.rule and k.get("function") == v.function and canon_stmt(k.get("stmt", "")) == canon_stmt(v.stmt):
                 match = k
                 break
         (listed if match else unlisted).append((v, match))
+    return listed, unlisted
+
+
+def finish(rep: Report, project, controls: list, error: str | None = None) -> int:
+    """Print verdict lines, write evidence + replay files, return the exit code."""
+    prop = rep.prop
+    unrec = [i for i in rep.instances if i.verdict == UNRECOGNISED]
+    listed, unlisted = split_known(rep)
     errors = []
     if error:
         errors.append(error)
